@@ -97,7 +97,7 @@ def explore(ctx):
     else:
         small = OrderedDict(dims)
         small["shape"] = [s for s in dims["shape"] if s != [8, 10]]
-        ctx.run_lattice(MOD, "run_case", small, 4, part="gap-small-shapes<=4", canon=c01.canon)
+        ctx.run_lattice(MOD, "run_case", small, None, part="gap-small-shapes-full-product", canon=c01.canon)
         ctx.run_lattice(MOD, "run_case", dims, 3, part="gap-all-shapes<=3", canon=c01.canon)
     allp = [(a, b) for a in range(1, 7) for b in range(a, 7)]
     shear_cases = []
